@@ -182,7 +182,13 @@ def triple_strategy():
                              max_size=2)
     plain = st.tuples(vals, vals, vals, tvmaps)
     with_eq = st.tuples(eq_pairs, vals, tvmaps).map(lambda t: (t[0][0], t[0][1], t[1], t[2]))
-    return st.one_of(plain, plain, with_eq)
+    # the same value with union members / TypedDict items written in reverse order, at any depth
+    td2 = st.lists(st.tuples(st.sampled_from(["a", "b", "c"]), G.values(any_ok=False, typevars=False, max_leaves=2), st.booleans()),
+                   min_size=2, max_size=3, unique_by=lambda t: t[0]).map(lambda items: ("td", [[k, t, r] for k, t, r in items]))
+    wrap = st.one_of(td2, td2.map(lambda x: ("gen", "list", [x])), td2.map(lambda x: ("union", [x, ("cls", "int")])),
+                     G.values(any_ok=False, typevars=False, max_leaves=4))
+    reord = st.tuples(G.reordered_pairs(wrap), vals, tvmaps).map(lambda t: (t[0][0], t[0][1], t[1], t[2]))
+    return st.one_of(plain, plain, with_eq, reord)
 
 
 def shards(tier, seed):
